@@ -269,6 +269,7 @@ theorem clean_apply {N : Nat} {s : State} (h : Clean s) (e : Ev) (he : e.enabled
       · subst e; have := h j; simp [CleanT] at this ⊢; exact this.1
       · simpa [e] using h j
     · exact h
+  | badRelease k => exact h
   | cancel i => simp [Ev.orderly] at ho
   | throw i x => simp [Ev.orderly] at ho
   | interrupt i x => simp [Ev.orderly] at ho
